@@ -535,6 +535,8 @@ class Parser(ExprParser):
         """
         lst = node.template_arguments
         if self.have("LT"):
+            if self.peek("GT"):
+                self.error_msg("Expected a template argument after '<'")
             while self.token.typ != "GT":
                 temp = Declaration()
                 self.declaration_specifier(temp)
